@@ -3,6 +3,7 @@ package rules
 import (
 	"fmt"
 	"go/constant"
+	"go/token"
 	"go/types"
 	"regexp/syntax"
 	"sort"
@@ -503,6 +504,7 @@ func (e *Env) c15Modifiers() {
 	for _, x := range hs {
 		r.Ob("R2", "modifiers:"+x.key, x.desc).Check(x.ok, core.FuncName(fn), "present", "the documented modifier "+x.key+" has no handler in "+core.FuncName(fn))
 	}
+	e.c15SuffixOnly(fn, g)
 	obT := r.Ob("R2", "modifiers:no-cutset-trim", "a suffix/prefix given by the user is removed as a suffix/prefix: no strings.Trim/TrimLeft/TrimRight with a variable cut-set")
 	e.noCutsetTrim(obT, fn)
 }
@@ -553,4 +555,81 @@ func (e *Env) accessorRule(rule string) {
 			ob.Fail(core.FuncName(fn), fmt.Sprintf("none of the %d lookups is guarded by a fatal check", n0))
 		}
 	}
+}
+
+// c15SuffixOnly (C15.R2): `%STRING` removes STRING only where it is the END of the path. Every cut x[:h] of a string
+// in the modifier function must have h = len(x) - len(e) and be reached only when e was found to be the suffix of x
+// (e == x[len(x)-len(e):] or strings.HasSuffix(x, e)); strings.TrimSuffix is the one-call form. A cut at a searched
+// position (strings.Index / LastIndex) removes a non-trailing occurrence together with everything after it.
+func (e *Env) c15SuffixOnly(fn *ssa.Function, g *core.XG) {
+	ob := e.R.Ob("R2", "modifiers:%suffix⇒suffix-only", "`%STRING` removes STRING only at the end of the path: the cut has the length of STRING and is guarded by a suffix comparison (or is strings.TrimSuffix)")
+	sy := e.fsym()
+	n0 := 0
+	for _, n := range g.Nodes {
+		if n.IsCallTo("strings.TrimSuffix") {
+			n0++
+			ob.OK(g.Where(n), "strings.TrimSuffix")
+			continue
+		}
+		sl, ok := n.Instr.(*ssa.Slice)
+		if !ok || sl.High == nil || sl.Low != nil {
+			continue
+		}
+		if b, ok := sl.X.Type().Underlying().(*types.Basic); !ok || b.Info()&types.IsString == 0 {
+			continue
+		}
+		n0++
+		// h = len(x) - len(suffix), by SSA value identity inside the function that makes the cut
+		suffix := lenDiff(sl.High, sl.X)
+		if suffix == nil {
+			ob.Fail(g.Where(n), "the path is cut at "+trunc(sy.InCtx(n.Ctx, sl.High).String(), 100)+", not at len(path)-len(STRING): an occurrence of STRING that is not at the end is removed together with everything after it")
+			continue
+		}
+		guarded := false
+		for _, gd := range g.Guards(n, sy) {
+			if gd.If == nil || gd.If.Parent() != sl.Parent() {
+				continue
+			}
+			switch c := gd.If.Cond.(type) {
+			case *ssa.Call:
+				if f := c.Call.StaticCallee(); gd.Pol && f != nil && f.String() == "strings.HasSuffix" && c.Call.Args[0] == sl.X && c.Call.Args[1] == suffix {
+					guarded = true
+				}
+			case *ssa.BinOp:
+				if (gd.Pol && c.Op == token.EQL) || (!gd.Pol && c.Op == token.NEQ) {
+					for _, pr := range [][2]ssa.Value{{c.X, c.Y}, {c.Y, c.X}} {
+						if tail, ok := pr[1].(*ssa.Slice); ok && pr[0] == suffix && tail.X == sl.X && tail.High == nil && tail.Low != nil && lenDiff(tail.Low, sl.X) == suffix {
+							guarded = true
+						}
+					}
+				}
+			}
+		}
+		ob.Check(guarded, g.Where(n), "cut of len(STRING) bytes under the comparison STRING == path[len(path)-len(STRING):]", "the cut of len(STRING) bytes is not guarded by a comparison of STRING with the end of the path: the last bytes are removed whatever they are")
+	}
+	if n0 == 0 {
+		ob.Unknown(core.FuncName(fn), "no string cut x[:h] and no strings.TrimSuffix in the modifier function: the idiom that removes the suffix was not recognised")
+	}
+}
+
+// lenDiff: v is len(x) - len(e) for some e: returns e (nil otherwise).
+func lenDiff(v, x ssa.Value) ssa.Value {
+	bo, ok := v.(*ssa.BinOp)
+	if !ok || bo.Op != token.SUB {
+		return nil
+	}
+	lenArg := func(w ssa.Value) ssa.Value {
+		c, ok := w.(*ssa.Call)
+		if !ok {
+			return nil
+		}
+		if b, ok := c.Call.Value.(*ssa.Builtin); ok && b.Name() == "len" && len(c.Call.Args) == 1 {
+			return c.Call.Args[0]
+		}
+		return nil
+	}
+	if lenArg(bo.X) != x {
+		return nil
+	}
+	return lenArg(bo.Y)
 }
